@@ -1,5 +1,5 @@
 (* C14 — EnsurePathExistsOnAdd (v5 model). *)
-From JP Require Import Bytes Json Text Strings Den Pointer Rfc6902 ImplV5 Domain ImplFacts RefFacts ApplyFacts ApplySim.
+From JP Require Import Bytes Json Text Strings Den Pointer Rfc6902 ImplV5 Domain ImplFacts RefFacts ApplyFacts ApplySim AllowEnsureFacts.
 
 (* an add that succeeds without the option gives the same result with it: when every parent of
    the path exists, ensurePathExists creates nothing and the add is the reference's add *)
@@ -23,6 +23,132 @@ Print Assumptions C14_existing_parents_untouched.
 Theorem C14_errors_are_plain : forall o parts c e c', ensure o parts c = (Some e, c') -> plain_err e = true.
 Proof. exact ensure_err. Qed.
 Print Assumptions C14_errors_are_plain.
+
+(* ensurePathExists builds exactly ens (the value-level creation function of AllowEnsureFacts.v: walk
+   the existing containers; at the first missing token pad the array if it is one, create an array
+   when the NEXT token is an index or "-" and an object otherwise, padded with nulls up to that index)
+   for every path whose decoded tokens are member names or canonical non-negative indices *)
+Theorem C14_ensure_is_ens : forall o parts c j1,
+  cgood c -> Forall ctok (map decode_token parts) ->
+  ens (dia o) (map decode_token parts) (cval c) = Some j1 ->
+  exists c1, ensure o parts c = (None, c1) /\ cval c1 = j1 /\ cgood c1.
+Proof. exact ensure_sim. Qed.
+Print Assumptions C14_ensure_is_ens.
+
+(* the add with the option on is the reference's add on the document ens built *)
+Theorem C14_add_after_ens : forall o st op r c j1,
+  s_root st = RCon c -> cgood c -> o_ensure o = true ->
+  op_str op (B "path") = Ok (x2f :: r) -> Forall ctok (map decode_token (split_slash r)) -> val_good op ->
+  ens (dia o) (ptoks r) (cval c) = Some j1 ->
+  match at_parent (dia o) (ptoks r) j1 (add_leaf (dia o) (ref_value op)) with
+  | Rfc6902.Ok j' => exists st', op_add o st op = Ok st' /\ sval st' = j' /\ sgood st' /\ s_acc st' = s_acc st
+  | Rfc6902.Fail cz => exists e, op_add o st op = Err e /\ cause_rel cz e
+  end.
+Proof. exact ensure_add_sim. Qed.
+Print Assumptions C14_add_after_ens.
+
+(* the creation clauses in closed form: the parents ps exist and lead to the container p, the
+   token t is missing there (growable: p is an object, or an array and t an index not below its
+   length), rest are the tokens after t.  The add succeeds and the document is the old one in which
+   p has grown by t holding chain rest v: created containers hold nothing but the path and the padding *)
+Theorem C14_creates : forall o st op r c ps t rest p,
+  s_root st = RCon c -> cgood c -> o_ensure o = true ->
+  op_str op (B "path") = Ok (x2f :: r) -> Forall ctok (map decode_token (split_slash r)) -> val_good op ->
+  map decode_token (split_slash r) = ps ++ t :: rest ->
+  descend (dia o) ps (cval c) = Some p -> growable (dia o) p t -> rest <> [] -> Forall nodash (t :: removelast rest) ->
+  exists st', op_add o st op = Ok st' /\
+              sval st' = rebuild (dia o) ps (cval c) (grow p t (chain rest (ref_value op))) /\
+              sgood st' /\ s_acc st' = s_acc st.
+Proof. exact ensure_creates. Qed.
+Print Assumptions C14_creates.
+
+(* (a) the single missing last parent of an object path *)
+Theorem C14_creates_last_parent : forall o st op r c ps t k ms,
+  s_root st = RCon c -> cgood c -> o_ensure o = true ->
+  op_str op (B "path") = Ok (x2f :: r) -> Forall ctok (map decode_token (split_slash r)) -> val_good op ->
+  map decode_token (split_slash r) = ps ++ [t; k] ->
+  descend (dia o) ps (cval c) = Some (OObj ms) -> aget t ms = None -> is_name t -> is_name k ->
+  exists st', op_add o st op = Ok st' /\
+              sval st' = rebuild (dia o) ps (cval c) (OObj (ms ++ [(t, OObj [(k, ref_value op)])])) /\
+              sgood st' /\ s_acc st' = s_acc st.
+Proof. exact ensure_creates_last_parent. Qed.
+Print Assumptions C14_creates_last_parent.
+
+(* (b) a chain of several missing object parents *)
+Theorem C14_creates_object_chain : forall o st op r c ps t rest ms,
+  s_root st = RCon c -> cgood c -> o_ensure o = true ->
+  op_str op (B "path") = Ok (x2f :: r) -> Forall ctok (map decode_token (split_slash r)) -> val_good op ->
+  map decode_token (split_slash r) = ps ++ t :: rest ->
+  descend (dia o) ps (cval c) = Some (OObj ms) -> aget t ms = None -> rest <> [] -> Forall is_name (t :: rest) ->
+  exists st', op_add o st op = Ok st' /\
+              sval st' = rebuild (dia o) ps (cval c) (OObj (ms ++ [(t, obj_chain rest (ref_value op))])) /\
+              sgood st' /\ s_acc st' = s_acc st.
+Proof. exact ensure_creates_objects. Qed.
+Print Assumptions C14_creates_object_chain.
+
+(* (c) arrays: created when the next token is an index (padded with nulls up to it) or "-";
+   an existing array that is too short is padded up to the index of the missing parent *)
+Theorem C14_creates_array : forall o st op r c ps t i n rest ms,
+  s_root st = RCon c -> cgood c -> o_ensure o = true ->
+  op_str op (B "path") = Ok (x2f :: r) -> Forall ctok (map decode_token (split_slash r)) -> val_good op ->
+  map decode_token (split_slash r) = ps ++ t :: i :: rest ->
+  descend (dia o) ps (cval c) = Some (OObj ms) -> aget t ms = None -> nodash t ->
+  canonical_nat i = Some n -> Forall nodash (removelast (i :: rest)) ->
+  exists st', op_add o st op = Ok st' /\
+              sval st' = rebuild (dia o) ps (cval c)
+                           (OObj (ms ++ [(t, OArr (repeat ONull (Z.to_nat n) ++ [chain rest (ref_value op)]))])) /\
+              sgood st' /\ s_acc st' = s_acc st.
+Proof. exact ensure_creates_array. Qed.
+Print Assumptions C14_creates_array.
+
+Theorem C14_creates_array_dash : forall o st op r c ps t ms,
+  s_root st = RCon c -> cgood c -> o_ensure o = true ->
+  op_str op (B "path") = Ok (x2f :: r) -> Forall ctok (map decode_token (split_slash r)) -> val_good op ->
+  map decode_token (split_slash r) = ps ++ [t; [x2d]] ->
+  descend (dia o) ps (cval c) = Some (OObj ms) -> aget t ms = None -> nodash t ->
+  exists st', op_add o st op = Ok st' /\
+              sval st' = rebuild (dia o) ps (cval c) (OObj (ms ++ [(t, OArr [ref_value op])])) /\
+              sgood st' /\ s_acc st' = s_acc st.
+Proof. exact ensure_creates_array_dash. Qed.
+Print Assumptions C14_creates_array_dash.
+
+Theorem C14_pads_array : forall o st op r c ps t n rest l,
+  s_root st = RCon c -> cgood c -> o_ensure o = true ->
+  op_str op (B "path") = Ok (x2f :: r) -> Forall ctok (map decode_token (split_slash r)) -> val_good op ->
+  map decode_token (split_slash r) = ps ++ t :: rest ->
+  descend (dia o) ps (cval c) = Some (OArr l) -> canonical_nat t = Some n -> (Z.of_nat (length l) <= n)%Z ->
+  rest <> [] -> Forall nodash (removelast rest) ->
+  exists st', op_add o st op = Ok st' /\
+              sval st' = rebuild (dia o) ps (cval c)
+                           (OArr (l ++ repeat ONull (Z.to_nat n - length l) ++ [chain rest (ref_value op)])) /\
+              sgood st' /\ s_acc st' = s_acc st.
+Proof. exact ensure_pads_array. Qed.
+Print Assumptions C14_pads_array.
+
+(* afterwards the added value is found at the path (last token a member name or an index; for "-"
+   it is the last element of the array) *)
+Theorem C14_found : forall o st op r c j1 st',
+  s_root st = RCon c -> cgood c -> o_ensure o = true ->
+  op_str op (B "path") = Ok (x2f :: r) -> Forall ctok (map decode_token (split_slash r)) -> val_good op ->
+  ens (dia o) (ptoks r) (cval c) = Some j1 -> nodash (path_key r) ->
+  op_add o st op = Ok st' ->
+  get_at (dia o) (ptoks r) (sval st') = Rfc6902.Ok (ref_value op).
+Proof. exact ensure_add_found. Qed.
+Print Assumptions C14_found.
+
+(* every location that existed before and is not on the path keeps its value (an add that had to
+   create at least one parent; when all parents exist it is the plain add, C14_agrees_with_plain_add) *)
+Theorem C14_frame : forall o st op r c j1 st',
+  s_root st = RCon c -> cgood c -> o_ensure o = true ->
+  op_str op (B "path") = Ok (x2f :: r) -> Forall ctok (map decode_token (split_slash r)) -> val_good op ->
+  ens (dia o) (ptoks r) (cval c) = Some j1 ->
+  Forall nodash (map decode_token (path_parts r)) ->
+  descend (dia o) (map decode_token (path_parts r)) (cval c) = None ->
+  op_add o st op = Ok st' ->
+  forall q x, Forall nonneg q -> get_at (dia o) q (sval st) = Rfc6902.Ok x -> ~ is_prefix q (ptoks r) ->
+              get_at (dia o) q (sval st') = Rfc6902.Ok x.
+Proof. exact ensure_add_frame. Qed.
+Print Assumptions C14_frame.
 
 (* creation: missing parents are created — an array when the next token is an index or "-",
    an object otherwise — padded with nulls up to the index, tokens decoded; what existed stays *)
